@@ -20,12 +20,13 @@ from fractions import Fraction
 import torch
 
 from .aggsym_common import (EPS, F64, NORM_EPS, PE_NORM, ROSTER, build, call, cond_of, ld, maxdiff, mgda_gap,
-                            norm_eps_side, rationalise, ref_of)
+                            norm_eps_side, present, rationalise, ref_of, split_padded)
 from .core import Ctx, MachineryError
 from .tlc import run_tlc
 
 SCALES = [0, 0, -10, -14, -20, -34, 20, 40]
 CSTEP, CMAX, ABMAX, MAXZERO = 1024, 1048576, 3, 3
+PADMAX = 16384
 
 # ------------------------------------------------------------------------------------------ exact classification
 
@@ -122,6 +123,14 @@ class Inst:
         self.den = 1
         self.P, self.W = P0[:], W0[:]
         self.c1, self.c2, self.a, self.b = [1] * self.m, [1] * self.m, 1, 1
+        self.pad = {"cnt": 0, "lay": "none"}          # PadZero: zero columns that are not materialised here
+
+    @property
+    def padpos(self) -> list[int]:
+        """1-based position of materialised column j in the presented matrix (this driver's own index map; the
+        trace specification compares it with PadPosSeq)."""
+        k, n = self.pad["cnt"], self.n
+        return [j + ((j - 1) * k) // n if self.pad["lay"] == "interleave" else j for j in range(1, n + 1)]
 
     @property
     def n(self):
@@ -134,7 +143,13 @@ class Inst:
     def apply(self, g: dict) -> bool:
         k = g["g"]
         i, j = g["i"] - 1, g["j"] - 1
-        if k == "swaprows":
+        if self.pad["cnt"]:
+            return False                               # PadZero closes a word
+        if k == "pad":
+            if not (1 <= g["i"] <= PADMAX and g["lay"] in ("append", "interleave")):
+                return False
+            self.pad = {"cnt": g["i"], "lay": g["lay"]}
+        elif k == "swaprows":
             for v in (self.J, self.P, self.W, self.c1, self.c2):
                 v[i], v[j] = v[j], v[i]
         elif k == "swapcols":
@@ -181,7 +196,7 @@ class Inst:
 
 def random_gen(rng: random.Random, inst: Inst, pid: str) -> dict:
     m, n = inst.m, inst.n
-    g = {"g": "", "i": 1, "j": 2, "q": [1, 2, 3, 4]}
+    g = {"g": "", "i": 1, "j": 2, "q": [1, 2, 3, 4], "lay": "none"}
     if pid == "C10":
         kinds = ["swaprows"]
     elif pid == "C09":
@@ -221,6 +236,12 @@ def make_recipe(rng: random.Random, pid: str, ep: int) -> dict:
         g = random_gen(rng, inst, pid)
         if inst.apply(g):
             gens.append(g)
+    if pid == "C08" and rng.random() < 0.3:
+        # close the word with a block of zero columns of ANY size up to 2^14 (small, a power of two, or large)
+        cnt = rng.choice([rng.randint(1, 64), 2 ** rng.randint(7, 14), rng.randint(4096, PADMAX)])
+        g = {"g": "pad", "i": cnt, "j": 2, "q": [1, 2, 3, 4], "lay": rng.choice(["append", "interleave"])}
+        if inst.apply(g):
+            gens.append(g)
     return {"ep": ep, "pid": pid, "J0": J0, "P0": P0, "W0": W0, "gens": gens, "e": rng.choice(SCALES),
             "seed": rng.randrange(2 ** 30)}
 
@@ -238,12 +259,25 @@ def _rat(x, e: int) -> list:
     return out
 
 
-def _exact_outputs(M: torch.Tensor, P, W, m: int, e: int, seed: int) -> dict:
-    o = {k: _rat(call(build(nm, P, W), M, seed), e) for k, nm in
+def _exact_outputs(M: torch.Tensor, P, W, m: int, e: int, seed: int, sp: dict | None = None) -> dict:
+    """Rationalised outputs of the exactly-defined aggregators.  With a padded presentation `sp` (pad, padpos) the
+    values are logged on the materialised columns and the padded columns are summarised by o["padnz"], the number
+    of entries there that are not exactly zero."""
+    nz = [0]
+
+    def run(agg):
+        x = call(agg, M, seed)
+        if sp is not None and sp["pad"]["cnt"] and not isinstance(x, str):
+            xm, _ = split_padded(x, sp)
+            nz[0] += int((x != 0).sum()) - int((xm != 0).sum())
+            x = xm
+        return _rat(x, e)
+    o = {k: run(build(nm, P, W)) for k, nm in
          (("mean", "Mean"), ("sum", "Sum"), ("constP", "ConstantP"), ("constW", "ConstantW"))}
-    o["tm"] = [{"b": b, "val": _rat(call(build("TrimmedMean", extra=b), M, seed), e)} for b in range((m - 1) // 2 + 1)]
+    o["tm"] = [{"b": b, "val": run(build("TrimmedMean", extra=b))} for b in range((m - 1) // 2 + 1)]
     cfgs = sorted({(f, k) for f in range(0, m - 2) for k in (1, 2, m - 1) if 1 <= k <= m})
-    o["krum"] = [{"f": f, "k": k, "val": _rat(call(build("Krum", extra=(f, k)), M, seed), e)} for f, k in cfgs]
+    o["krum"] = [{"f": f, "k": k, "val": run(build("Krum", extra=(f, k)))} for f, k in cfgs]
+    o["padnz"] = nz[0]
     return o
 
 
@@ -263,11 +297,14 @@ def execute(recipe: dict) -> dict:
     cls = py_classify(J0)
     pref_deg = all(P0[i] == 0 for i in range(m) if any(J0[i]))
     kind = "scale" if pid == "C09" else "sym"
-    M0, M1 = ld(J0, e), ld(inst.J, e, inst.den)
+    sp = {"pad": inst.pad, "padpos": inst.padpos}
+    M0, M1 = ld(J0, e), present(ld(inst.J, e, inst.den), sp)
     ep = {"ep": recipe["ep"], "kind": kind, "m": m, "n": inst.n0, "J0": J0, "P0": P0, "W0": W0, "gens": recipe["gens"],
           "J": inst.J, "den": inst.den, "P": inst.P, "W": inst.W, "c1": inst.c1, "c2": inst.c2, "a": inst.a, "b": inst.b,
-          "cls": cls, "prefDeg": pref_deg, "e": e,
-          "out0": _exact_outputs(M0, P0, W0, m, e, seed), "out1": _exact_outputs(M1, inst.P, inst.W, m, e, seed)}
+          "cls": cls, "prefDeg": pref_deg, "e": e, "pad": inst.pad, "padpos": inst.padpos,
+          "out0": _exact_outputs(M0, P0, W0, m, e, seed), "out1": _exact_outputs(M1, inst.P, inst.W, m, e, seed, sp)}
+    ep["padnz"] = ep["out1"].pop("padnz")
+    ep["out0"].pop("padnz")
     xc = [inst.a * u + inst.b * v for u, v in zip(inst.c1, inst.c2)]
     Ms = [torch.ldexp(torch.tensor(c, dtype=F64).unsqueeze(1) * torch.tensor(J0, dtype=F64), torch.tensor(e))
           for c in (xc, inst.c1, inst.c2)]
@@ -277,7 +314,7 @@ def execute(recipe: dict) -> dict:
                      for w, M in zip(("x", "x1", "x2"), Ms)}
     else:
         ep["lin"] = {"x": {}, "x1": {}, "x2": {}}
-    Qt = torch.tensor(inst.Q, dtype=F64) / inst.den
+    Qt = present(torch.tensor(inst.Q, dtype=F64) / inst.den, sp)
     colperm = inst.den == 1 and all(v in (0, 1) for r in inst.Q for v in r)
     flt = []
     for r in ROSTER:
@@ -326,8 +363,12 @@ def execute(recipe: dict) -> dict:
                                             zip((1, inst.a, inst.b), (xc, inst.c1, inst.c2)))
                 ent["ok"] = bool(maxdiff(xs[0], inst.a * xs[1] + inst.b * xs[2]) <= tol)
         else:
-            a0, a1 = build(name, P0, W0), build(name, inst.P, inst.W)
-            x0, x1 = call(a0, M0, seed), call(a1, M1, seed)
+            # the laws are about ONE aggregator A evaluated at J and at the transformed J: whenever both sides have
+            # the same configuration (no per-row parameter vector, or rows not permuted) it IS one object, and the
+            # transformed matrix is handed over as a temporary (no reference kept by this driver during the call)
+            a0 = build(name, P0, W0)
+            a1 = a0 if (r["params"] is None or (inst.P, inst.W) == (P0, W0)) else build(name, inst.P, inst.W)
+            x0, x1 = call(a0, M0, seed), call(a1, M1.clone(), seed)
             if isinstance(x0, str) or isinstance(x1, str):
                 ent["ok"] = isinstance(x0, str) and isinstance(x1, str)
             else:
@@ -364,7 +405,8 @@ def validate(ctx: Ctx, pid: str, episodes: list[dict], recipes: dict | None = No
         if rj["clause"] in ("generator_not_enabled", "classification_differs_from_model", "transformed_instance"):
             raise MachineryError(f"driver and specification disagree ({rj['clause']}) on episode {e['ep']}: "
                                  f"J0={e['J0']} gens={e['gens']}")
-        word = ">".join(g["g"] + (str(g["q"]) if g["g"] == "hadamard" else f"{g['i']},{g['j']}") for g in e["gens"])
+        word = ">".join(g["g"] + (str(g["q"]) if g["g"] == "hadamard" else f"{g['i']}{g['lay']}" if g["g"] == "pad"
+                                  else f"{g['i']},{g['j']}") for g in e["gens"])
         key = f"{pid}:trace:{rj['clause']}:{rj['agg']}:J0={e['J0']}:P0={e['P0']}:W0={e['W0']}:{word}:e={e['e']}"
         if rj["clause"] == "float_relation" and rj["agg"] == "ConFIGP" and e["prefDeg"]:
             key = f"{pid}:ConFIG:pref_weight_only_on_zero_rows"       # same stable key as the S->C part
@@ -393,7 +435,7 @@ def run_cs(ctx: Ctx, pid: str, n_episodes: int) -> dict:
     for e in episodes:
         if e["gens"] and not e["cls"]["conflictFree"]:
             ctx.nontrivial(("trace", str(e["J0"]), str(e["gens"])))
-    ctx.sample({"episode": {k: episodes[0][k] for k in ("J0", "P0", "gens", "J", "den", "P", "e", "cls", "flt")}})
+    ctx.sample({"episode": {k: episodes[0][k] for k in ("J0", "P0", "gens", "J", "den", "P", "pad", "e", "cls", "flt")}})
     return validate(ctx, pid, episodes, {r["ep"]: r for r in recipes})
 
 
